@@ -2212,6 +2212,11 @@ def sh_correspondence(ctx, J, bases):
         E("psk-far", [{"find": ["ext:pre_shared_key", "selected"], "op": "set_uint", "value": 65535}], psk="65535"),
         E("psk-dup", [{"find": ["extensions"], "op": "dup_named", "name": "ext:pre_shared_key"}], psk="D"),
         E("no-key-share-psk-only", [{"find": ["extensions"], "op": "del_named", "name": "ext:key_share"}], ks="-"),
+        # extensions the client did not send (this client offers no ALPN)
+        E("alpn-unsolicited", [ins(16, "0003026832")], alpn="L2"),
+        E("alpn-unsolicited-two", [ins(16, "000602683202" + "6833")], alpn="L2,2"),
+        E("alpn-unsolicited-empty", [ins(16, "0000")], alpn="L"),
+        E("npn-unsolicited-protos", [ins(13172, "026832")], npn=1),
     ]
     # TLS 1.2: the extensions of the real ServerHello of the scenario give the base features
     B12 = dict(B13, sv="-", ks="-", cmin=771, cmax=771, cvers="771,770,769", ems="1", alpn="L8", hb="1", ecpf="L0", rsl="16384")
